@@ -129,3 +129,39 @@ def run(ctx):
             continue
         seen.add(key)
         ctx.violation(f["kind"], det, True)
+    # ---- two ranks: the real mpi.c / gvt_msg_drain / mpi_remote_msg_drain with a hostile but legal peer (fake MPI library) that keeps
+    # cancelling events while this rank shuts down (anti-messages of another colour than their events in flight during the drain
+    # rounds, control messages arbitrarily late). Oracle: the run returns within the step budget; a hang outside the flush loop /
+    # barrier of gvt_msg_drain (stages 1-2 = the known F1 family) is a violation with the configuration as replay.
+    from props import runlib
+    pagg = runlib.peer_matrix(ctx, 40, 1000, salt=8)
+    if pagg:
+        ctx.coverage["two_rank_shutdown(adversarial peer)"] = ctx.coverage.pop("peer_mode")
+    # ---- full single-rank runs of GenModel instances (incl. predicates already true at LP_INIT, tiny thresholds, termination
+    # times): every run must return within the step budget; a hang that does not carry the F1 signature is a violation
+    sagg = runlib.run_matrix(ctx, "full runs return (GenModel, scheduled)", 30, 800, oracle_keys=(), threads=(1, 2, 3, 4), tterm=False)
+    if sagg:
+        ctx.coverage["full_runs"] = {"runs": sagg.runs, "outcomes": sagg.outcomes, "known_F1_hangs": sagg.f1}
+    # ---- models whose event population never dies out (frozen LPs keep ticking; no Lean twin): such a run can only end through
+    # the termination protocol, so a thread that can no longer vote shows as a hang in the worker loop (stage 0)
+    import random
+    import concurrent.futures
+    rnd = random.Random(ctx.seed * 31 + 5)
+    lcfgs = []
+    for i in range(40 if ctx.tier == "quick" else 1000):
+        c = runlib.gen_configs(ctx, 1)[0]
+        c.update({"seed": rnd.randrange(1, 1 << 30), "mseed": rnd.randrange(1, 1 << 30), "live": 1, "threads": rnd.choice([1, 2, 3, 4]),
+                  "lps": rnd.choice([2, 3, 4, 6, 8]), "thr": rnd.choice([0, 5, 20, 60]),
+                  "spread": rnd.choice([0, 3, 10, 2000, 2003, 3010]), "period": rnd.choice([0, 10, 1000]),
+                  "batch": rnd.choice([0, 2, 8]), "budget": 400000, "mem": 0})
+        c.pop("tterm", None)
+        lcfgs.append(c)
+    lagg = runlib.Agg()
+    with concurrent.futures.ThreadPoolExecutor(max_workers=12) as ex:
+        for r in ex.map(lambda ic: runlib.run_one(ctx, "par", ic[1], "lv%d" % ic[0], model=False), enumerate(lcfgs)):
+            lagg.add(r)
+    for r in lagg.hang_other[:3]:
+        ctx.violation("hang", {"cfg": r["cfg"], "points": r["stats"].get("points"), "note": "population never dies out: only the termination protocol can end this run"}, True)
+    for r in lagg.crashes[:2]:
+        ctx.violation("runtime-crash", {"cfg": r["cfg"], "output": r["out"][-500:]}, True)
+    ctx.coverage["never_quiescent_models"] = {"runs": lagg.runs, "outcomes": lagg.outcomes, "known_F1_hangs": lagg.f1}
